@@ -141,12 +141,14 @@ def handlePure : List String → Option String
     match feeDecision a p (premiumLimit a (← int? limitPpm)) ((← nat? feeSat) * 1000) (← nat? spendable) (← nat? expectedFee) with
     | .pay => pure s!"pay claim={wrapU64 (claimAmountOut a p * 1000)}"
     | .premiumTooHigh => pure "premiumTooHigh"
+    | .premiumTooLow => pure "premiumTooLow"
     | .notEnoughSpendable => pure "notEnoughSpendable"
     | .feeTooHigh => pure "feeTooHigh"
   | ["amt.in", amount, limitPpm, premium] => do
     let a ← nat? amount
-    match inDecision a (← int? premium) (premiumLimit a (← int? limitPpm)) with
-    | none => pure "premiumTooHigh"
+    let p ← int? premium
+    match inDecision a p (premiumLimit a (← int? limitPpm)) with
+    | none => pure (if p > premiumLimit a (← int? limitPpm) then "premiumTooHigh" else "premiumTooLow")
     | some (lock, ask) => pure s!"lock={lock} ask={ask}"
   | ["scid.cln", s] => do pure (hexStr (clnStyle (← unhexStr s)))
   | ["scid.lnd", s] => do pure (hexStr (lndStyle (← unhexStr s)))
